@@ -5,11 +5,10 @@ CONSTANT DropKind = "expo"
 CONSTANT DropIdx = 3
 CONSTANT Cases <- CasesExpo
 CONSTANT Sel = {}
+CONSTANT DegShift = 0
 INIT InitRows
 NEXT NextRows
 INVARIANT Satisfied
 INVARIANT PinnedInv
-INVARIANT CountInv
-INVARIANT LayoutInv
 INVARIANT UniqueInv
 CHECK_DEADLOCK FALSE
